@@ -26,7 +26,8 @@ class Check(PropertyCheck):
     def generate(self, rng, n, tier):
         for i in range(n):
             if i % 5 == 4:
-                yield Scenario(["new", f"mark seeds {rng.randint(0, 10**6)}"], {"kind": "seed"})
+                yield Scenario(["new", f"mark seeds {rng.choice([0, 0, 1, rng.randint(0, 10**6), rng.randint(0, 10**6)])}"],
+                               {"kind": "seed"})
                 continue
             j1 = rng.randint(1, 5)
             j2 = j1 if rng.random() < 0.3 else j1 + rng.randint(0, 3)
